@@ -5,8 +5,21 @@
    real code did: whether LoadAndValidate accepted the configuration, the limiter built
    by CreateRateLimiter (Limit() == Inf, Burst()), the act instants ReserveN(t,1) granted,
    the probe's results and the wall-clock time the probe took. *)
+From Coq Require Export Uint63.
 From Verif Require Import Common C18_Model C18_Spec C18_Proofs.
 Open Scope Z_scope.
+
+(* Number literals: elaborating a 14-digit Z literal costs about 1 ms in Coq 8.16 and a
+   case holds ~100 instants, so the generated cases files carry instants as primitive
+   63-bit integers (parsed natively) and convert them here, inside vm_compute.
+   [zp n] = n, [zn n] = -n, [zl] a list of instants, [ol] a list of granted instants in
+   which the sentinel 2^63-1 stands for "refused" (None). *)
+Definition zp (i : Uint63.int) : Z := Uint63.to_Z i.
+Definition zn (i : Uint63.int) : Z := - Uint63.to_Z i.
+Definition zl (l : list Uint63.int) : list Z := map zp l.
+Definition refused : Uint63.int := Uint63.max_int.
+Definition ol (l : list Uint63.int) : list (option Z) :=
+  map (fun i => if Uint63.eqb i refused then None else Some (zp i)) l.
 
 Record obs := mkObs {
   o_loaded : bool;
